@@ -3,6 +3,9 @@
 package cmap
 
 import (
+	"strings"
+	"unicode/utf16"
+
 	"seehuhn.de/go/pdf/font/charcode"
 	"seehuhn.de/go/postscript"
 	"seehuhn.de/go/postscript/cid"
@@ -275,4 +278,97 @@ func Verif_C13_tounicode_runs() {
 		}
 	}
 	verifrt.Assert(all, "every code of a run gives its own text")
+}
+
+// Verif_C13_tounicode_reader: a ToUnicode CMap written by hand as the
+// specification lays it out (one bfchar and one bfrange with a single
+// destination, codes and destination units solver-chosen from boundary
+// values) is read by the extraction code; lookups give the intended texts.
+func Verif_C13_tounicode_reader() {
+	hexd := "0123456789abcdef"
+	hex2 := func(b byte) string { return string([]byte{hexd[b>>4], hexd[b&15]}) }
+	units := []uint16{0x0041, 0x00e9, 0xd7ff, 0xe000, 0xfeff, 0xfffd}
+	c1 := byte(verifrt.IntRange("single", 0, 255))
+	lo := byte(verifrt.IntRange("first", 0, 250))
+	span := byte(verifrt.Choice("span", 3))
+	verifrt.Assume(c1 < lo || c1 > lo+span)
+	u1 := units[verifrt.Choice("unit", len(units))]
+	u2 := units[verifrt.Choice("unit", len(units))]
+	text := "/CIDInit /ProcSet findresource begin\n12 dict begin\nbegincmap\n" +
+		"/CIDSystemInfo << /Registry (Adobe) /Ordering (UCS) /Supplement 0 >> def\n" +
+		"/CMapName /Adobe-Identity-UCS def\n/CMapType 2 def\n" +
+		"1 begincodespacerange\n<00> <ff>\nendcodespacerange\n" +
+		"1 beginbfchar\n<" + hex2(c1) + "> <" + hex2(byte(u1>>8)) + hex2(byte(u1)) + ">\nendbfchar\n" +
+		"1 beginbfrange\n<" + hex2(lo) + "> <" + hex2(lo+span) + "> <" + hex2(byte(u2>>8)) + hex2(byte(u2)) + ">\nendbfrange\n" +
+		"endcmap\nCMapName currentdict /CMap defineresource pop\nend\nend\n"
+	tu, err := readToUnicode(strings.NewReader(text))
+	verifrt.Assert(err == nil && tu != nil, "conforming ToUnicode CMap is read")
+	if err != nil {
+		return
+	}
+	verifrt.Cover("read")
+	got, ok := tu.Lookup([]byte{c1})
+	verifrt.Assert(ok && got == string(utf16.Decode([]uint16{u1})), "bfchar destination")
+	for i := byte(0); i <= span; i++ {
+		got, ok := tu.Lookup([]byte{lo + i})
+		want := []rune(string(utf16.Decode([]uint16{u2})))
+		want[len(want)-1] += rune(i)
+		verifrt.Assert(ok && got == string(want), "bfrange destination incremented by the offset")
+	}
+}
+
+// Verif_C13_cmap_reader: a code-to-CID CMap written by hand (two-byte code
+// space, one cidchar, one cidrange, one notdefrange; the cidchar's low byte
+// and the probe's low byte symbolic, the rest from boundary lists)
+// is read by the extraction code: every code looks up to the CID the file
+// says, codes outside give the notdef CID or 0.
+func Verif_C13_cmap_reader() {
+	hexd := "0123456789abcdef"
+	hex2 := func(b byte) string { return string([]byte{hexd[b>>4], hexd[b&15]}) }
+	dec := func(n int) string {
+		if n == 0 {
+			return "0"
+		}
+		s := ""
+		for n > 0 {
+			s = string([]byte{byte('0' + n%10)}) + s
+			n /= 10
+		}
+		return s
+	}
+	hi := []byte{0x00, 0x81, 0xff}[verifrt.Choice("hi", 3)]
+	c1 := byte(verifrt.IntRange("single", 0, 255))
+	lo := []byte{0x00, 0x40, 0xfa}[verifrt.Choice("first", 3)]
+	span := byte(verifrt.Choice("span", 3))
+	verifrt.Assume(c1 < lo || c1 > lo+span)
+	cid1 := verifrt.Choice("cid1", 3) * 7000
+	cid2 := []int{1, 255, 65530}[verifrt.Choice("cid2", 3)]
+	text := "/CIDInit /ProcSet findresource begin\n12 dict begin\nbegincmap\n" +
+		"/CIDSystemInfo << /Registry (Adobe) /Ordering (Identity) /Supplement 0 >> def\n" +
+		"/CMapName /Test def\n/CMapType 1 def\n/WMode 0 def\n" +
+		"1 begincodespacerange\n<0000> <ffff>\nendcodespacerange\n" +
+		"1 beginnotdefrange\n<" + hex2(hi) + "00> <" + hex2(hi) + "ff> 3\nendnotdefrange\n" +
+		"1 begincidchar\n<" + hex2(hi) + hex2(c1) + "> " + dec(cid1) + "\nendcidchar\n" +
+		"1 begincidrange\n<" + hex2(hi) + hex2(lo) + "> <" + hex2(hi) + hex2(lo+span) + "> " + dec(cid2) + "\nendcidrange\n" +
+		"endcmap\nCMapName currentdict /CMap defineresource pop\nend\nend\n"
+	f, _, err := readCMap(strings.NewReader(text))
+	verifrt.Assert(err == nil && f != nil, "conforming CMap is read")
+	if err != nil {
+		return
+	}
+	verifrt.Cover("read")
+	verifrt.Assert(int(f.LookupCID([]byte{hi, c1})) == cid1 || cid1 == 0, "cidchar")
+	for i := byte(0); i <= span; i++ {
+		verifrt.Assert(int(f.LookupCID([]byte{hi, lo + i})) == cid2+int(i), "cidrange incremented by the offset")
+	}
+	p := []byte{hi ^ byte(verifrt.Choice("otherrow", 2)), verifrt.Byte("probe")}
+	inChar := p[0] == hi && p[1] == c1
+	inRange := p[0] == hi && p[1] >= lo && p[1] <= lo+span
+	if !inChar && !inRange {
+		want := 0
+		if p[0] == hi {
+			want = 3
+		}
+		verifrt.Assert(int(f.LookupCID(p)) == want, "other codes give the notdef CID of their range or 0")
+	}
 }
